@@ -5,6 +5,10 @@ use std::io::{Bytes, Read, Result};
 verus! {
 
 //@@ include prelude/io.rs
+pub mod u8s {
+use vstd::prelude::*;
+//@@ include prelude/u8std.rs
+}
 
 //@@ item src/reader.rs :: struct Location
 //@@ derives Clone
